@@ -40,9 +40,14 @@ def run_online(driver, backend, nsteps, hook=None, tid=0, src="random"):
             del impl.WRITE_LOG[:]
             obs = impl.observe(ix)
             st = {"op": op, "res": res, "w": w, "rawT": raw_t, "rawL": raw_l, "obs": obs}
-            if hook:
+            t_before = impl.TIMEOUTS[0]
+            if hook and "err" not in obs:
                 st["q"] = hook(ix, driver, i + 1, op, res)
             steps.append(st)
+            if hasattr(driver, "feedback"):
+                driver.feedback(op, res)
+            if res["exc"] == "RequestTimeout" or "err" in obs or impl.TIMEOUTS[0] > t_before:
+                break      # a hung or failing index is not driven further
     finally:
         ix.destroy()
     tsteps, abort = concrete_steps_to_trace(steps)
